@@ -103,6 +103,9 @@ func (r *runner) checkView(op int, v *preconfirmed.ChainReader, b uint64) []*pen
 			r.violate(op, "oldestfirst-not-reverse-of-newestfirst", fmt.Sprintf("SnapshotForBlock(%d): iterators disagree at %d", b, i))
 		}
 	}
+	for _, e := range nf {
+		r.checkEntry(op, e)
+	}
 	if v.Head() != nf[0] {
 		r.violate(op, "head-is-not-newest-entry", fmt.Sprintf("SnapshotForBlock(%d): Head() is not the first entry", b))
 	}
@@ -189,7 +192,7 @@ func (r *runner) checkLookups(op int, v *preconfirmed.ChainReader, b uint64, nf 
 	rc, num, err := v.ReceiptByHash(h)
 	switch {
 	case err == nil && rc != nil:
-		rcTok = fmt.Sprintf("%s.%s.%d@%d", fv(rc.TransactionHash), fv(rc.Fee), len(rc.Events), num)
+		rcTok = fmt.Sprintf("%s.%s.%d.%d@%d", fv(rc.TransactionHash), fv(rc.Fee), len(rc.Events), revTok(rc), num)
 		if !rcOf(rc, num) {
 			r.violate(op, "receipt-lookup-returns-item-not-of-the-view",
 				fmt.Sprintf("SnapshotForBlock(%d).ReceiptByHash(%d) returned %s: block %d of the view does not hold that receipt under that hash", b, hash, rcTok, num))
@@ -555,6 +558,9 @@ func cloneDiff(d *core.StateDiff) *core.StateDiff {
 // block of the view, up to the requested one, whose diff writes the slot; for a slot the view does
 // not write: 0 if the view deploys the contract, else what the state below the view says.
 func (r *runner) checkLastUpdated(op int, v *preconfirmed.ChainReader, b, block uint64, sr core.StateReader) {
+	if validateView(v, b) != "" {
+		return // a malformed view is reported as such, not as a wrong last-updated block
+	}
 	var base core.StateReader
 	for _, a := range uniAddrs {
 		for _, k := range uniSlots {
@@ -638,33 +644,80 @@ func sentBlocks(scn *Scenario) map[uint64]sentBlock {
 	for num, ts := range txs {
 		d := core.EmptyStateDiff()
 		for _, t := range ts {
-			td := t.Diff.coreDiff()
-			for a, inner := range td.StorageDiffs {
-				if d.StorageDiffs[a] == nil {
-					d.StorageDiffs[a] = map[felt.Felt]*felt.Felt{}
-				}
-				for k, v := range inner {
-					d.StorageDiffs[a][k] = v
-				}
-			}
-			for k, v := range td.Nonces {
-				d.Nonces[k] = v
-			}
-			for k, v := range td.DeployedContracts {
-				d.DeployedContracts[k] = v
-			}
-			for k, v := range td.ReplacedClasses {
-				d.ReplacedClasses[k] = v
-			}
-			for k, v := range td.DeclaredV1Classes {
-				d.DeclaredV1Classes[k] = v
-			}
-			for k, v := range td.MigratedClasses {
-				d.MigratedClasses[k] = v
-			}
-			d.DeclaredV0Classes = append(d.DeclaredV0Classes, td.DeclaredV0Classes...)
+			foldInto(&d, t.Diff.coreDiff())
 		}
 		out[num] = sentBlock{diff: &d, classes: cls[num]}
 	}
 	return out
+}
+
+// checkEntry: an entry's block-level diff must be the fold, in order, of its per-transaction diffs
+// — of ALL of them, whatever the execution status of the transaction (a reverted transaction still
+// bumps the nonce and pays the fee) — otherwise the state at the block (which overlays the block
+// diff) is not the state after its last transaction. Header counters and bloom must describe the
+// entry's own receipts.
+func (r *runner) checkEntry(op int, e *pending.PreConfirmed) {
+	if e.StateUpdate == nil || e.StateUpdate.StateDiff == nil {
+		return
+	}
+	fold := core.EmptyStateDiff()
+	for _, td := range e.TransactionStateDiffs {
+		if td == nil {
+			r.violate(op, "entry-has-nil-transaction-diff", fmt.Sprintf("block %d", e.Block.Number))
+			return
+		}
+		foldInto(&fold, td)
+	}
+	if got, want := canonDiff(e.StateUpdate.StateDiff), canonDiff(&fold); got != want {
+		r.violate(op, "entry-block-diff-is-not-the-fold-of-its-transaction-diffs",
+			fmt.Sprintf("block %d (%s): StateUpdate.StateDiff = %s, its %d transaction diffs fold to %s", e.Block.Number, e.BlockIdentifier, got, len(e.TransactionStateDiffs), want))
+	}
+	n := len(e.Block.Transactions)
+	events := uint64(0)
+	for _, rc := range e.Block.Receipts {
+		if rc != nil {
+			events += uint64(len(rc.Events))
+		}
+	}
+	bloomOK := true
+	if e.Block.EventsBloom != nil {
+		a, err1 := e.Block.EventsBloom.MarshalBinary()
+		b, err2 := core.EventsBloom(e.Block.Receipts).MarshalBinary()
+		bloomOK = err1 == nil && err2 == nil && string(a) == string(b)
+	}
+	if len(e.Block.Receipts) != n || len(e.TransactionStateDiffs) != n || e.Block.TransactionCount != uint64(n) ||
+		e.Block.EventCount != events || !bloomOK {
+		r.violate(op, "entry-header-inconsistent-with-content",
+			fmt.Sprintf("block %d: %d txs, %d receipts, %d tx diffs, TransactionCount %d, EventCount %d (receipts have %d), bloom matches receipts: %v",
+				e.Block.Number, n, len(e.Block.Receipts), len(e.TransactionStateDiffs), e.Block.TransactionCount, e.Block.EventCount, events, bloomOK))
+	}
+}
+
+// foldInto applies src on top of dst (later wins), written out here so that the reference does not
+// depend on core.StateDiff.Merge.
+func foldInto(dst, src *core.StateDiff) {
+	for a, inner := range src.StorageDiffs {
+		if dst.StorageDiffs[a] == nil {
+			dst.StorageDiffs[a] = map[felt.Felt]*felt.Felt{}
+		}
+		for k, v := range inner {
+			dst.StorageDiffs[a][k] = v
+		}
+	}
+	for k, v := range src.Nonces {
+		dst.Nonces[k] = v
+	}
+	for k, v := range src.DeployedContracts {
+		dst.DeployedContracts[k] = v
+	}
+	for k, v := range src.ReplacedClasses {
+		dst.ReplacedClasses[k] = v
+	}
+	for k, v := range src.DeclaredV1Classes {
+		dst.DeclaredV1Classes[k] = v
+	}
+	for k, v := range src.MigratedClasses {
+		dst.MigratedClasses[k] = v
+	}
+	dst.DeclaredV0Classes = append(dst.DeclaredV0Classes, src.DeclaredV0Classes...)
 }
